@@ -24,6 +24,8 @@ structure ChainInv (s : SM) : Prop where
     n ≤ s.tail.length ∧ s.snaps ≠ [] ∧
     replay (s.staged.foldl applySeg (resolve s.snaps)) (s.tail.drop n) = some s.db ∧
     (s.fullNeeded = false → s.modified = false ∧ s.staged.foldl applySeg (resolve s.snaps) = some s.file)
+  /-- while a superseded local snapshot is pending the newest snapshot is a full one (the installed one) -/
+  pendStale : ∀ c, s.pend = some (.stale c) → ∃ l a, s.snaps = l ++ [.full a]
 
 def resolveStep (acc : Option C) (x : Snap) : Option C :=
   match x with
@@ -59,16 +61,28 @@ theorem fileAfter_noLoad (r : C) (es : List Entry) (h : hasLoad es = false) : fi
     | load c => simp [hasLoad] at h
 
 theorem chainInv_init : ChainInv {} :=
-  ⟨rfl, rfl, fun _ _ h => absurd rfl h, (fun _ _ _ _ h => by cases h), (fun _ _ h => by cases h)⟩
+  ⟨rfl, rfl, fun _ _ h => absurd rfl h, (fun _ _ _ _ h => by cases h), (fun _ _ h => by cases h), (fun _ h => by cases h)⟩
+
+theorem resolve_insertBelow (l : List Snap) (a : C) (x : Snap) :
+    resolve (insertBelowNewest (l ++ [.full a]) x) = resolve (l ++ [.full a]) := by
+  simp only [insertBelowNewest, List.dropLast_concat, List.getLast?_concat, Option.toList]
+  have : l ++ x :: [Snap.full a] = (l ++ [x]) ++ [Snap.full a] := by simp
+  rw [this, resolve_snoc, resolve_snoc l (.full a)]
+  rfl
+
+theorem resolve_full_last (l : List Snap) (a : C) : resolve (l ++ [.full a]) = some a := by
+  rw [resolve_snoc]; rfl
 
 /-- a full snapshot of the current database just installed, nothing staged, nothing pending -/
-theorem chainInv_full_installed (s : SM) (c : C) (fn md : Bool) (cmds ap) (gn : Nat) :
-    ChainInv { s with db := c, file := c, staged := [], snaps := s.snaps ++ [.full c], fullNeeded := fn, gen := gn, modified := md, pend := none, tail := [], cmds := cmds, applied := ap } where
+theorem chainInv_full_installed (s : SM) (c : C) (fn md : Bool) (cmds ap) (gn : Nat) (pd : Option Pend)
+    (hpd : pd = none ∨ ∃ x, pd = some (.stale x)) :
+    ChainInv { s with db := c, file := c, staged := [], snaps := s.snaps ++ [.full c], fullNeeded := fn, gen := gn, modified := md, pend := pd, tail := [], cmds := cmds, applied := ap } where
   restore := by simp [resolve_snoc, resolveStep, replay]
   resolves := by simp [resolve_snoc, resolveStep]
   staged _ _ _ := by simp [resolve_snoc, resolveStep]
-  pendFull _ _ _ _ h := by cases h
-  pendInc _ _ h := by cases h
+  pendFull _ _ _ _ h := by rcases hpd with rfl | ⟨x, rfl⟩ <;> cases h
+  pendInc _ _ h := by rcases hpd with rfl | ⟨x, rfl⟩ <;> cases h
+  pendStale _ _ := ⟨s.snaps, c, rfl⟩
 
 /-- an applied entry -/
 theorem apply_inv (s : SM) (h : ChainInv s) (e : Entry) (d' : C) (f' : C) (fn md : Bool) (cm ap) (gn : Nat)
@@ -79,7 +93,7 @@ theorem apply_inv (s : SM) (h : ChainInv s) (e : Entry) (d' : C) (f' : C) (fn md
       replay x ((s.tail ++ [e]).drop n) = some d' := by
     intro x n hn hx
     rw [drop_snoc _ _ _ hn, replay_snoc, hx, hd]
-  refine ⟨?_, h.resolves, ?_, ?_, ?_⟩
+  refine ⟨?_, h.resolves, ?_, ?_, ?_, h.pendStale⟩
   · simp only [replay_snoc, h.restore, hd]
   · intro hf hm hne
     rcases hkeep with ⟨h1, h2, h3⟩ | ⟨h1, _⟩
@@ -119,7 +133,7 @@ theorem snapBegin_inv (s : SM) (h : ChainInv s) : ChainInv (snapBegin 3 s).1 := 
     · -- full
       have h32 : (3 : Nat) ≥ 2 := by decide
       simp only [h32, if_true]
-      refine ⟨h.restore, h.resolves, (fun hf => by cases hf), ?_, (fun _ _ hp' => by cases hp')⟩
+      refine ⟨h.restore, h.resolves, (fun hf => by cases hf), ?_, (fun _ _ hp' => by cases hp'), (fun _ hp' => by cases hp')⟩
       intro c n cm g hp'
       simp only [Option.some.injEq, Pend.full.injEq] at hp'
       obtain ⟨rfl, rfl, rfl, rfl⟩ := hp'
@@ -134,11 +148,25 @@ theorem snapBegin_inv (s : SM) (h : ChainInv s) : ChainInv (snapBegin 3 s).1 := 
       · exact h
       · have hnew : (s.staged ++ [(⟨s.file, s.db⟩ : Seg)]).foldl applySeg (resolve s.snaps) = some s.db := by
           rw [foldl_applySeg_snoc, hst]; simp [applySeg]
-        refine ⟨h.restore, h.resolves, fun _ _ _ => hnew, (fun _ _ _ _ hp' => by cases hp'), ?_⟩
+        refine ⟨h.restore, h.resolves, fun _ _ _ => hnew, (fun _ _ _ _ hp' => by cases hp'), ?_, (fun _ hp' => by cases hp')⟩
         intro n cm hp'
         simp only [Option.some.injEq, Pend.inc.injEq] at hp'
         obtain ⟨rfl, rfl⟩ := hp'
         exact ⟨Nat.le_refl _, hdue'.2.1, by simp [hnew, replay], fun _ => ⟨hdue'.2.2, hnew⟩⟩
+
+theorem restart_inv (s : SM) (h : ChainInv s) : ChainInv (restartSM s).1 := by
+  unfold restartSM
+  cases hr : resolve s.snaps with
+  | none => have := h.resolves; rw [hr] at this; cases this
+  | some r =>
+    have hre := h.restore
+    rw [hr] at hre
+    simp only [hre]
+    refine ⟨by simpa [hr] using hre, by simp [hr], ?_, (fun _ _ _ _ hp' => by cases hp'), (fun _ _ hp' => by cases hp'),
+      (fun _ hp' => by cases hp')⟩
+    intro hf _ _
+    simp only [Bool.or_eq_false_iff] at hf
+    simp [hr, fileAfter_noLoad r s.tail hf.2]
 
 theorem snapEnd_inv (s : SM) (h : ChainInv s) (o : Outcome) : ChainInv (snapEnd 3 s o).1 := by
   unfold snapEnd
@@ -150,12 +178,12 @@ theorem snapEnd_inv (s : SM) (h : ChainInv s) (o : Outcome) : ChainInv (snapEnd 
       obtain ⟨a1, a2, a3, a4, a5⟩ := h.pendFull c n cm g hp
       have keep : ChainInv { s with pend := none } :=
         ⟨h.restore, h.resolves, (fun hf => by simp only at hf; rw [a1] at hf; cases hf),
-          (fun _ _ _ _ hp' => by cases hp'), (fun _ _ hp' => by cases hp')⟩
+          (fun _ _ _ _ hp' => by cases hp'), (fun _ _ hp' => by cases hp'), (fun _ hp' => by cases hp')⟩
       cases o with
       | ok =>
         have h33 : (3 : Nat) ≥ 3 := by decide
         simp only [h33, if_true]
-        refine ⟨?_, ?_, ?_, (fun _ _ _ _ hp' => by cases hp'), (fun _ _ hp' => by cases hp')⟩
+        refine ⟨?_, ?_, ?_, (fun _ _ _ _ hp' => by cases hp'), (fun _ _ hp' => by cases hp'), (fun _ hp' => by cases hp')⟩
         · simp [resolve_snoc, resolveStep, a3]
         · simp [resolve_snoc, resolveStep]
         · intro hf hm _
@@ -167,7 +195,8 @@ theorem snapEnd_inv (s : SM) (h : ChainInv s) (o : Outcome) : ChainInv (snapEnd 
     | inc n cm =>
       obtain ⟨a1, a2, a3, a4⟩ := h.pendInc n cm hp
       have keep : ChainInv { s with pend := none } :=
-        ⟨h.restore, h.resolves, h.staged, (fun _ _ _ _ hp' => by cases hp'), (fun _ _ hp' => by cases hp')⟩
+        ⟨h.restore, h.resolves, h.staged, (fun _ _ _ _ hp' => by cases hp'), (fun _ _ hp' => by cases hp'),
+          (fun _ hp' => by cases hp')⟩
       cases o with
       | ok =>
         simp only
@@ -176,7 +205,7 @@ theorem snapEnd_inv (s : SM) (h : ChainInv s) (o : Outcome) : ChainInv (snapEnd 
         · rename_i hfn
           have hf : s.fullNeeded = false := by simpa using hfn
           obtain ⟨b1, b2⟩ := a4 hf
-          refine ⟨?_, ?_, ?_, (fun _ _ _ _ hp' => by cases hp'), (fun _ _ hp' => by cases hp')⟩
+          refine ⟨?_, ?_, ?_, (fun _ _ _ _ hp' => by cases hp'), (fun _ _ hp' => by cases hp'), (fun _ hp' => by cases hp')⟩
           · simp [resolve_snoc, resolveStep, a3]
           · simp [resolve_snoc, resolveStep, b2]
           · intro _ _ _
@@ -185,7 +214,41 @@ theorem snapEnd_inv (s : SM) (h : ChainInv s) (o : Outcome) : ChainInv (snapEnd 
       | failBefore => exact keep
       | failAfter =>
         simp only
-        exact ⟨h.restore, h.resolves, (fun hf => by cases hf), (fun _ _ _ _ hp' => by cases hp'), (fun _ _ hp' => by cases hp')⟩
+        exact ⟨h.restore, h.resolves, (fun hf => by cases hf), (fun _ _ _ _ hp' => by cases hp'), (fun _ _ hp' => by cases hp'),
+          (fun _ hp' => by cases hp')⟩
+    | stale c =>
+      have keep : ChainInv { s with pend := none } :=
+        ⟨h.restore, h.resolves, h.staged, (fun _ _ _ _ hp' => by cases hp'), (fun _ _ hp' => by cases hp'),
+          (fun _ hp' => by cases hp')⟩
+      have raise : ChainInv { s with fullNeeded := true, gen := s.gen + 1, pend := none } :=
+        ⟨h.restore, h.resolves, (fun hf => by cases hf), (fun _ _ _ _ hp' => by cases hp'), (fun _ _ hp' => by cases hp'),
+          (fun _ hp' => by cases hp')⟩
+      obtain ⟨l, a, hl⟩ := h.pendStale c hp
+      cases c with
+      | none =>
+        cases o with
+        | ok =>
+          simp only
+          have := restart_inv _ keep
+          cases hrs : restartSM { s with pend := none } with
+          | mk s' r => rw [hrs] at this; exact this
+        | notInvoked => exact keep
+        | failBefore => exact raise
+        | failAfter => exact raise
+      | some a' =>
+        cases o with
+        | ok =>
+          simp only
+          have hres : resolve (insertBelowNewest s.snaps (.full a')) = resolve s.snaps := by
+            rw [hl]; exact resolve_insertBelow l a _
+          refine ⟨by simp only [hres]; exact h.restore, by simp only [hres]; exact h.resolves, ?_,
+            (fun _ _ _ _ hp' => by cases hp'), (fun _ _ hp' => by cases hp'), (fun _ hp' => by cases hp')⟩
+          intro hf hm _
+          simp only [hres]
+          exact h.staged hf hm (by rw [hl]; simp)
+        | notInvoked => exact keep
+        | failBefore => exact raise
+        | failAfter => exact raise
 
 theorem snapshot_inv (s : SM) (h : ChainInv s) (o : Outcome) : ChainInv (snapshot 3 s o).1 := by
   unfold snapshot
@@ -209,7 +272,7 @@ theorem step_inv (s : SM) (h : ChainInv s) (op : Op) : ChainInv (step 3 s op).1 
     exact apply_inv s h (.write w) _ s.file s.fullNeeded s.modified _ _ s.gen rfl (Or.inl ⟨rfl, rfl, rfl⟩)
   | noop =>
     simp only [step]
-    exact ⟨h.restore, h.resolves, h.staged, h.pendFull, h.pendInc⟩
+    exact ⟨h.restore, h.resolves, h.staged, h.pendFull, h.pendInc, h.pendStale⟩
   | snapBegin => exact snapBegin_inv s h
   | snapEnd o => exact snapEnd_inv s h o
   | snapshot o => exact snapshot_inv s h o
@@ -230,21 +293,25 @@ theorem step_inv (s : SM) (h : ChainInv s) (op : Op) : ChainInv (step 3 s op).1 
           = { s with db := c, file := c, staged := [], snaps := s.snaps ++ [.full c], fullNeeded := false, gen := s.gen + 1 + 1, modified := false, pend := none, tail := s.tail.drop s.tail.length, cmds := s.cmds + 1 - (s.cmds + 1), applied := true } := by
         simp [snapshot, snapBegin, snapEnd, fullDue, hpn]
       rw [hs]
-      have := chainInv_full_installed s c false false (s.cmds + 1 - (s.cmds + 1)) true (s.gen + 1 + 1)
+      have := chainInv_full_installed s c false false (s.cmds + 1 - (s.cmds + 1)) true (s.gen + 1 + 1) none (Or.inl rfl)
       simpa using this
   | install c =>
-    simp only [step]
-    split
-    · exact h
-    · rename_i hp
-      have hpn : s.pend = none := by
-        cases hs : s.pend with
-        | none => rfl
-        | some p => simp [hs] at hp
-      have h21 : (3 : Nat) ≥ 1 := by decide
-      simp only [h21, if_true]
-      have := chainInv_full_installed s c false false 0 s.applied s.gen
-      simpa [hpn] using this
+    have h30 : ¬ ((3 : Nat) = 0) := by decide
+    have h31 : (3 : Nat) ≥ 1 := by decide
+    simp only [step, h30, decide_false, Bool.false_and, Bool.false_eq_true, if_false, h31, if_true]
+    have key : ∀ pd : Option Pend, (pd = none ∨ ∃ x, pd = some (.stale x)) →
+        ChainInv { s with snaps := s.snaps ++ [.full c], fullNeeded := false, db := c, file := c, modified := false,
+                          tail := [], cmds := 0, pend := pd, staged := [] } := by
+      intro pd hpd
+      have := chainInv_full_installed s c false false 0 s.applied s.gen pd hpd
+      exact this
+    cases hp : s.pend with
+    | none => exact key none (Or.inl rfl)
+    | some p =>
+      cases p with
+      | full a n cm g => exact key _ (Or.inr ⟨_, rfl⟩)
+      | inc n cm => exact key _ (Or.inr ⟨_, rfl⟩)
+      | stale x => exact key _ (Or.inr ⟨_, rfl⟩)
   | reap =>
     simp only [step]
     cases hr : resolve s.snaps with
@@ -258,7 +325,7 @@ theorem step_inv (s : SM) (h : ChainInv s) (op : Op) : ChainInv (step 3 s op).1 
           have : s.snaps.length = 0 := by rw [e]; rfl
           omega
         have hres : resolve [Snap.full c] = some c := by simp [resolve]
-        refine ⟨?_, ?_, ?_, ?_, ?_⟩
+        refine ⟨?_, ?_, ?_, ?_, ?_, (fun _ _ => ⟨[], c, rfl⟩)⟩
         · have := h.restore; rw [hr] at this; simpa [hres] using this
         · simp [hres]
         · intro hf hm _
@@ -271,18 +338,7 @@ theorem step_inv (s : SM) (h : ChainInv s) (op : Op) : ChainInv (step 3 s op).1 
           rw [hr] at a3 a4
           exact ⟨a1, by simp, by simpa [hres] using a3, by simpa [hres] using a4⟩
       · exact h
-  | restart =>
-    simp only [step]
-    cases hr : resolve s.snaps with
-    | none => have := h.resolves; rw [hr] at this; cases this
-    | some r =>
-      have hre := h.restore
-      rw [hr] at hre
-      simp only [hre]
-      refine ⟨by simpa [hr] using hre, by simp [hr], ?_, (fun _ _ _ _ hp' => by cases hp'), (fun _ _ hp' => by cases hp')⟩
-      intro hf _ _
-      simp only [Bool.or_eq_false_iff] at hf
-      simp [hr, fileAfter_noLoad r s.tail hf.2]
+  | restart => exact restart_inv s h
 
 theorem run_inv (ops : List Op) : ∀ (s : SM), ChainInv s → ChainInv (run 3 s ops) := by
   induction ops with
